@@ -175,6 +175,7 @@ class ActSpy:
         self.log = []
 
     def __enter__(self):
+        self.mods = [(mod, where) for mod, where in self.mods if hasattr(mod, "quantize_activation")]
         self.orig = [(mod, mod.quantize_activation) for mod, _ in self.mods]
         for mod, where in self.mods:
             def wrap(t, qtype, scale, _w=where, _f=mod.quantize_activation):
